@@ -594,6 +594,7 @@ def verify_contract(loader, registry, con, dim_override=None, observed=False, in
     from .interp import Interp, BoundMethod, Closure
 
     rep = FunctionReport(con.target, con.props, con.level)
+    max_paths = getattr(con, "max_paths", max_paths)
     t_start = time.time()
     degraded = [False, 0]   # [a counter-model was found, patience retries used]
     for case in (con.cases if cases is None else cases):
